@@ -1,6 +1,7 @@
 import NavisModel.Proofs.RerootLemmas
 import NavisModel.Proofs.WfB
 import NavisModel.Proofs.OpsWF
+import NavisModel.Proofs.OpsAllLemmas
 /-!
 # C01 — every operation that yields a skeleton yields a well-formed skeleton
 
@@ -183,5 +184,208 @@ input (navis raises), stale labels included -/
 example : labelsOKB (applyOp [⟨1, -1, 0, 0, 0, .slab⟩] (.removeNodes [9])) = false := by decide
 /-- a cyclic table is rejected -/
 example : wfB [⟨1, 2, 0, 0, 0, .slab⟩, ⟨2, 1, 0, 0, 0, .slab⟩] = false := by decide
+
+/-! ## The whole modelled catalogue: `OpAll`
+
+`OpAll` (`Model/OpsAll.lean`) has one constructor per modelled skeleton-returning operation: the seven of
+`Op`, multi-cut (`cutFragment`), the pruning family (`pruneTwigs`, `pruneAtDepth`, `longestNeurite`,
+`pruneByStrahler`), healing (`heal`, `healDrop`), `rewire`, fragments (`keepFragment`, `dropFluff`),
+stitching with other skeletons (`stitchWith`), resampling (`resample`, `resampleCounts`) and `insertNodes`
+(applied only under the edge guard navis validates).  `applyAll len` dispatches to the model functions; the
+theorems hold for EVERY edge-length function `len` (no symmetry or positivity needed).
+
+The only side condition is `OpAll.ok op`: the *foreign* skeletons an operation takes as further inputs
+(only `stitchWith` has any) are themselves well-formed forests.  It is `True` for every other constructor,
+decidable by `OpAll.okB`, and discharged at run time by `applyAllChecked`. -/
+
+/-- The side condition is decided by the executable check. -/
+theorem opAll_okB_decides_ok (op : OpAll) : op.okB = true ↔ op.ok := OpAll.okB_iff op
+
+/-- … and holds trivially for every operation without foreign inputs (all but `stitchWith`). -/
+theorem opAll_ok_of_no_operands (op : OpAll) (h : op.operands = []) : op.ok := OpAll.ok_of_operands_nil h
+
+theorem opsAll_ok_of_okB (ops : List OpAll) (h : ops.all OpAll.okB = true) : ∀ op ∈ ops, op.ok :=
+  fun op hop => (OpAll.okB_iff op).mp (List.all_eq_true.mp h op hop)
+
+/-- The guard `applyAll` evaluates before `insert_nodes` is the hypothesis of `insertNodes_preserves_WF`. -/
+theorem insertGuard_spec (t : Table) (edgesPC : List (Int × Int)) :
+    insertGuard t edgesPC = true ↔ ∀ e ∈ edgesPC, ∃ n ∈ t, n.id = e.2 ∧ n.parent = e.1 := insertGuard_iff
+
+/-- `OpAll` extends `Op`: histories over `Op` are histories over `OpAll` with the same result. -/
+theorem opAll_extends_op (len : Int → Int → Nat) (t : Table) (ops : List Op) :
+    (ops.map OpAll.ofOp).foldl (applyAll len) t = ops.foldl applyOp t := by
+  induction ops generalizing t with
+  | nil => rfl
+  | cons op ops ih => simp only [List.map_cons, List.foldl_cons, applyAll_ofOp]; exact ih _
+
+/-- **Every modelled operation preserves well-formedness** — one case per constructor of `OpAll`, each by
+the lemma of the operation's home file; for every table, every argument and every `len`. -/
+theorem opAll_preserves_WF (len : Int → Int → Nat) (t : Table) (hw : WF t) (op : OpAll) (hok : op.ok) :
+    WF (applyAll len t op) := WF_applyAll len hw op hok
+
+/-- With the side condition checked at run time there is no hypothesis besides `WF t`. -/
+theorem opAllChecked_preserves_WF (len : Int → Int → Nat) (t : Table) (hw : WF t) (op : OpAll) :
+    WF (applyAllChecked len t op) := by
+  unfold applyAllChecked
+  split
+  · rename_i h; exact WF_applyAll len hw op ((OpAll.okB_iff op).mp h)
+  · exact hw
+
+/-- **Histories over the whole catalogue**: any finite sequence of modelled operations — of any length,
+in any order, with any arguments — applied to a well-formed skeleton returns a well-formed skeleton,
+provided every foreign skeleton stitched in along the way is well-formed. -/
+theorem opsAll_preserve_WF (len : Int → Int → Nat) (t : Table) (hw : WF t) (ops : List OpAll)
+    (hok : ∀ op ∈ ops, op.ok) : WF (ops.foldl (applyAll len) t) := by
+  induction ops generalizing t with
+  | nil => exact hw
+  | cons op ops ih =>
+    exact ih _ (opAll_preserves_WF len t hw op (hok op (List.mem_cons_self ..)))
+      (fun o ho => hok o (List.mem_cons_of_mem _ ho))
+
+/-- The same with no side condition at all, for the run-time-checked dispatcher. -/
+theorem opsAllChecked_preserve_WF (len : Int → Int → Nat) (t : Table) (hw : WF t) (ops : List OpAll) :
+    WF (ops.foldl (applyAllChecked len) t) := by
+  induction ops generalizing t with
+  | nil => exact hw
+  | cons op ops ih => exact ih _ (opAllChecked_preserves_WF len t hw op)
+
+/-- The same when the edge-length function is recomputed from the current table at every step
+(`lenOf = coordLen`: Euclidean lengths of the current coordinates). -/
+theorem opsAllG_preserve_WF (lenOf : Table → Int → Int → Nat) (t : Table) (hw : WF t) (ops : List OpAll)
+    (hok : ∀ op ∈ ops, op.ok) : WF (ops.foldl (applyAllG lenOf) t) := by
+  induction ops generalizing t with
+  | nil => exact hw
+  | cons op ops ih =>
+    exact ih _ (opAll_preserves_WF (lenOf t) t hw op (hok op (List.mem_cons_self ..)))
+      (fun o ho => hok o (List.mem_cons_of_mem _ ho))
+
+/-! ### labels over the whole catalogue -/
+
+/-- An operation that ends in `classify_nodes` (all constructors except `reroot`) returns its input
+unchanged (where navis raises / returns early) or a table with correct labels — whatever the input's
+labels were. -/
+theorem opAll_labels_fresh (len : Int → Int → Nat) (t : Table) (op : OpAll) (hop : op.reclassifies) :
+    applyAll len t op = t ∨ labelsOKB (applyAll len t op) = true := labels_applyAll len t op hop
+
+/-- Correct labels are an invariant of EVERY operation on well-formed forests, `reroot` included (its
+incremental relabelling is correct on a well-formed, correctly labelled input). -/
+theorem opAll_labels_ok (len : Int → Int → Nat) (t : Table) (hw : WF t) (hl : labelsOKB t = true) (op : OpAll) :
+    labelsOKB (applyAll len t op) = true := labelsOK_applyAll len hw hl op
+
+/-- **Label invariant for histories**: from a well-formed, correctly labelled skeleton every history
+returns a correctly labelled (and well-formed) skeleton. -/
+theorem opsAll_labels_ok (len : Int → Int → Nat) (t : Table) (hw : WF t) (hl : labelsOKB t = true)
+    (ops : List OpAll) (hok : ∀ op ∈ ops, op.ok) :
+    WF (ops.foldl (applyAll len) t) ∧ labelsOKB (ops.foldl (applyAll len) t) = true := by
+  induction ops generalizing t with
+  | nil => exact ⟨hw, hl⟩
+  | cons op ops ih =>
+    exact ih _ (opAll_preserves_WF len t hw op (hok op (List.mem_cons_self ..))) (opAll_labels_ok len t hw hl op)
+      (fun o ho => hok o (List.mem_cons_of_mem _ ho))
+
+/-- **Histories whose last operation re-classifies** (anything but `reroot`): the result has correct
+labels, or that last operation returned its input unchanged (navis raised / returned early) — no
+assumption on the labels of the start table. -/
+theorem opsAll_labels_last (len : Int → Int → Nat) (t : Table) (ops : List OpAll) (op : OpAll)
+    (hop : op.reclassifies) :
+    (ops ++ [op]).foldl (applyAll len) t = ops.foldl (applyAll len) t ∨
+      labelsOKB ((ops ++ [op]).foldl (applyAll len) t) = true := by
+  rw [List.foldl_append]
+  exact opAll_labels_fresh len _ op hop
+
+/-- **Strongest form without a label assumption on the input**: if somewhere in the history there is an
+operation that re-classifies unconditionally (`subset`, `reclassify`, `pruneAtDepth`, `longestNeurite`,
+`rewire`, `dropFluff`, `resample`, `resampleCounts` — `OpAll.alwaysFresh`), the final result has correct
+labels, whatever comes before and after it (`reroot`s included). -/
+theorem opsAll_labels (len : Int → Int → Nat) (t : Table) (hw : WF t) (pre post : List OpAll) (op : OpAll)
+    (hfresh : op.alwaysFresh) (hok : ∀ o ∈ pre ++ op :: post, o.ok) :
+    labelsOKB ((pre ++ op :: post).foldl (applyAll len) t) = true := by
+  rw [List.foldl_append, List.foldl_cons]
+  have hpre : WF (pre.foldl (applyAll len) t) :=
+    opsAll_preserve_WF len t hw pre (fun o ho => hok o (List.mem_append_left _ ho))
+  have hop : WF (applyAll len (pre.foldl (applyAll len) t) op) :=
+    opAll_preserves_WF len _ hpre op (hok op (List.mem_append_right _ (List.mem_cons_self ..)))
+  exact (opsAll_labels_ok len _ hop (labels_applyAll_fresh len _ op hfresh) post
+    (fun o ho => hok o (List.mem_append_right _ (List.mem_cons_of_mem _ ho)))).2
+
+/-! ### Non-vacuity for `OpAll` -/
+
+/-- two fragments (a chain 1 ← 2 ← 3 with a twig 4 at node 2, and a chain 5 ← 6) -/
+def exF : Table := [⟨1, -1, 0, 0, 0, .root⟩, ⟨2, 1, 3, 0, 0, .branch⟩, ⟨3, 2, 6, 0, 0, .end_⟩, ⟨4, 2, 3, 4, 0, .end_⟩,
+  ⟨5, -1, 9, 0, 0, .root⟩, ⟨6, 5, 12, 0, 0, .end_⟩]
+/-- a foreign skeleton (a fork 4 ← {6, 7}) whose ids clash with the running table -/
+def exO : Table := [⟨4, -1, 20, 0, 0, .root⟩, ⟨6, 4, 23, 0, 0, .end_⟩, ⟨7, 4, 20, 3, 0, .end_⟩]
+def unitLen : Int → Int → Nat := fun _ _ => 1
+
+theorem exF_WF : WF exF := (wfB_decides_WF exF).mp (by decide)
+
+/-- a mixed history over the whole catalogue -/
+def hist : List OpAll :=
+  [.heal {}, .reroot 4, .pruneTwigs 1 0 none, .resampleCounts [([6, 5, 3, 2, 4], some 4)], .insertNodes [(8, 7)] [],
+   .removeNodes [7], .stitchWith [exO] .first (some {}), .cutFragment [9] 0, .keepFragment 0 0, .pruneByStrahler (.int 1),
+   .longestNeurite 0 1 false, .rewire [(9, 10)], .downsample none [], .cutDistal 10]
+
+example : WF (hist.foldl (applyAll unitLen) exF) :=
+  opsAll_preserve_WF unitLen exF exF_WF hist (opsAll_ok_of_okB hist (by decide))
+example : WF (hist.foldl (applyAllChecked unitLen) exF) := opsAllChecked_preserve_WF unitLen exF exF_WF hist
+/-- `rewire` (12th operation) re-classifies unconditionally: labels are correct at the end -/
+example : labelsOKB (hist.foldl (applyAll unitLen) exF) = true :=
+  opsAll_labels unitLen exF exF_WF (hist.take 11) (hist.drop 12) (.rewire [(9, 10)]) trivial
+    (opsAll_ok_of_okB hist (by decide))
+/-- the history does something at every step — ids and parent links after each prefix:
+heal hangs 5 on 3; reroot to 4; `prune_twigs` drops the one-edge twig 1; resampling the remaining chain
+6 → 4 with 4 sample positions replaces 5, 3, 2 by the fresh nodes 7, 8; `insert_nodes` puts 9 on the edge
+8 ← 7; `remove_nodes` takes 7 out again; stitching with `exO` renames its clashing ids 4, 6 to 10, 11
+and hangs it on 6; cut at 9, first piece; `break_fragments`; Strahler index 1 (the two tips) pruned;
+longest neurite; rewire on the single edge 9–10; downsample; the part distal to 10. -/
+example : (List.range hist.length).map
+      (fun k => ((hist.take (k + 1)).foldl (applyAll unitLen) exF).map fun n => (n.id, n.parent)) =
+    [[(1, -1), (2, 1), (3, 2), (4, 2), (5, 3), (6, 5)],
+     [(1, 2), (2, 4), (3, 2), (4, -1), (5, 3), (6, 5)],
+     [(2, 4), (3, 2), (4, -1), (5, 3), (6, 5)],
+     [(6, 7), (7, 8), (8, 4), (4, -1)],
+     [(6, 7), (7, 9), (8, 4), (4, -1), (9, 8)],
+     [(6, 9), (8, 4), (4, -1), (9, 8)],
+     [(6, 9), (8, 4), (4, -1), (9, 8), (10, 6), (11, 10), (7, 10)],
+     [(6, 9), (9, -1), (10, 6), (11, 10), (7, 10)],
+     [(6, 9), (9, -1), (10, 6), (11, 10), (7, 10)],
+     [(6, 9), (9, -1), (10, 6)],
+     [(6, 9), (9, -1), (10, 6)],
+     [(6, -1), (9, -1), (10, 9)],
+     [(6, -1), (9, -1), (10, 9)],
+     [(10, -1)]] := by
+  decide
+example : wfB (hist.foldl (applyAll unitLen) exF) = true ∧ labelsOKB (hist.foldl (applyAll unitLen) exF) = true := by
+  decide
+
+/-- a second history with Euclidean edge lengths recomputed from the current table at every step
+(`coordLen`), `resample_skeleton(resample_to=2)`, depth pruning, `drop_fluff`, `heal(drop_disc=True)` -/
+def hist2 : List OpAll :=
+  [.heal { maxD2 := some 10 }, .resample 2, .pruneAtDepth 1 4, .dropFluff none none, .healDrop {}]
+example : WF (hist2.foldl (applyAllG coordLen) exF) :=
+  opsAllG_preserve_WF coordLen exF exF_WF hist2 (opsAll_ok_of_okB hist2 (by decide))
+example : (List.range hist2.length).map
+      (fun k => ((hist2.take (k + 1)).foldl (applyAllG coordLen) exF).map fun n => (n.id, n.parent)) =
+    [[(1, -1), (2, 1), (3, 2), (4, 2), (5, 3), (6, 5)],               -- 3–5 (3² = 9 < 10) is bridged
+     [(2, 1), (4, 2), (6, 11), (11, 12), (12, 2), (1, -1)],           -- 3 and 5 replaced by fresh 11, 12
+     [(2, 1), (1, -1)], [(2, 1), (1, -1)], [(2, 1), (1, -1)]] := by
+  decide +kernel
+/-- the `insert_nodes` guard: a pair that is not an edge is refused (without the guard the result has a
+cycle, see above), an edge is accepted -/
+example : applyAll unitLen ex (.insertNodes [(3, 2)] []) = ex := by decide
+example : (applyAll unitLen ex (.insertNodes [(2, 3)] [])).map (fun n => (n.id, n.parent)) =
+    [(1, -1), (2, 1), (3, 5), (4, 2), (5, 2)] := by decide
+/-- the side condition `OpAll.ok` is needed: stitching in a cyclic table yields a cyclic table;
+`OpAll.okB` detects it and `applyAllChecked` refuses -/
+def exBad : Table := [⟨8, 9, 0, 0, 0, .slab⟩, ⟨9, 8, 0, 0, 0, .slab⟩]
+example : wfB (applyAll unitLen exF (.stitchWith [exBad] .first none)) = false := by decide
+example : (OpAll.stitchWith [exBad] .first none).okB = false := by decide
+example : applyAllChecked unitLen exF (.stitchWith [exBad] .first none) = exF := by decide
+/-- `reroot` is rightly excluded from `OpAll.reclassifies`: it does not repair stale labels -/
+example : labelsOKB (applyAll unitLen [⟨1, -1, 0, 0, 0, .root⟩, ⟨2, 1, 0, 0, 0, .slab⟩, ⟨3, 2, 0, 0, 0, .slab⟩]
+    (.reroot 2)) = false := by decide
+/-- the fall-back disjunct of `opsAll_labels_last` is needed: a last operation that returns early
+(`heal` of a single fragment) leaves stale labels in place -/
+example : labelsOKB ([OpAll.reroot 1, .heal {}].foldl (applyAll unitLen) [⟨1, -1, 0, 0, 0, .slab⟩]) = false := by decide
 
 end Navis.Props.C01
